@@ -350,6 +350,8 @@ func getLocalAddresses(c diam.Conn) ([]datatype.Address, error) {
 	hostIPs := strings.Split(addr, "/")
 	addresses := make([]datatype.Address, 0, len(hostIPs))
 	for _, ipStr := range hostIPs {
+		// an IPv6 endpoint is printed as "[addr]:port"
+		ipStr = strings.TrimSuffix(strings.TrimPrefix(ipStr, "["), "]")
 		ip := net.ParseIP(ipStr)
 		if ip != nil {
 			if ip.IsLoopback() {
